@@ -117,3 +117,32 @@ CHECKS["C02"] = {
         {"name": "client", "run": "^TestC02Client$", "kind": "rapid", "checks": {"quick": 400, "thorough": 8000}, "shards": {"quick": 4, "thorough": 16}},
     ],
 }
+
+CHECKS["C03"] = {
+    "pkg": "props/c03",
+    "level": "exploration",
+    "rule": "server: structure-aware mutants (delete/duplicate/transpose line, truncate, replace delimiter by a hostile byte, insert hostile bytes/snippets such as 'Trailer: a,,b', 'GET a:b', overflowing numbers, bit flips, splices) of generated pipelined streams, plus pure havoc strings, under random segmentation, EOF/timeout/reset endings, buffered and streaming, on the default engine without recovery middleware; "
+            "body-limit: well-formed requests with MaxRequestBodySize in {1,100,4096,8192} and bodies around the limit, CL and chunked, with/without Expect; client: mutants of generated responses read by HostClient.Do (buffered + streaming); "
+            "parsers: hostile atom strings into 17 exported parser entry points (URI, Args, Cookie, request cookies, Set-Cookie, Trailer, multipart boundary/form, Range, Content-Length, If-Modified-Since, Accept-Encoding); thorough adds 8 native coverage-guided fuzz targets. "
+            "Non-trivial (server) = the strict request reader rejects the input or finds fewer than 3 well-formed requests; distinct by FNV-64 of (input, mode, cuts).",
+    "assumptions": [
+        "whether lenient hertz rejects a given malformed message is not asserted; only the shape of a rejection (one 4xx + Connection: close, last bytes written, connection closed, no handler) and, for the body limit, that it always happens",
+        "engine-level 4xx without Connection: close (e.g. missing Host) are ordinary responses; silent close without a response is allowed",
+        "prefix-correctness: while the strict reader finds well-formed requests, what a handler sees for them must have the same method, target and body",
+        "resource exhaustion by absurd but allocatable declared lengths is not counted as a panic",
+    ],
+    "level_text": "Random structure-aware mutation and havoc against oracles 'no panic escapes', 'output is a sequence of well-formed responses under a strict reader', the rejection shape and the body-limit rule; thorough tier adds coverage-guided native fuzzing with the same oracles.",
+    "level_note": "Sampling only; trusts the strict readers in wire; panics are observed by recovering around engine.onData / HostClient.Do / each parser call.",
+    "technique": "property-based testing with structure-aware mutators (rapid) + native coverage-guided fuzzing; strict-reader and rejection-shape oracles",
+    "nontrivial_floor": 1000,
+    "units": [
+        {"name": "regress", "run": "^TestC03Regress$", "kind": "plain"},
+        {"name": "client", "run": "^TestC03Client$", "kind": "rapid", "checks": {"quick": 8000, "thorough": 160000}, "shards": {"quick": 4, "thorough": 16}},
+        {"name": "parsers", "run": "^TestC03Parsers$", "kind": "rapid", "checks": {"quick": 120000, "thorough": 2400000}, "shards": {"quick": 8, "thorough": 16}},
+        {"name": "server", "run": "^TestC03Server$", "kind": "rapid", "checks": {"quick": 24000, "thorough": 480000}, "shards": {"quick": 8, "thorough": 16}},
+        {"name": "body-limit", "run": "^TestC03BodyLimit$", "kind": "rapid", "checks": {"quick": 4000, "thorough": 80000}, "shards": {"quick": 4, "thorough": 16}},
+    ] + [
+        {"name": n, "run": "^%s$" % n, "kind": "fuzz", "tiers": ["thorough"], "exclusive": True, "fuzztime": {"thorough": "40s"}, "parallel": 16}
+        for n in ["FuzzServerBytes", "FuzzClientBytes", "FuzzURI", "FuzzCookie", "FuzzArgs", "FuzzRange", "FuzzTrailer", "FuzzMultipart"]
+    ],
+}
